@@ -156,6 +156,20 @@ def stores(fn: ast.AST) -> Iterator[Tuple[ast.stmt, str, ast.AST, bool, Optional
                 yield n, r[0], r[1], r[2], n.value
 
 
+def is_zero_vector(e: ast.AST) -> bool:
+    """[0.0 for _ in ..], [0.0, 0.0, ..], [0.0] * n, n * [0.0]"""
+    def zero_list(x: ast.AST) -> bool:
+        if isinstance(x, ast.ListComp):
+            return isinstance(x.elt, ast.Constant) and x.elt.value == 0 and not isinstance(x.elt.value, bool)
+        return isinstance(x, ast.List) and bool(x.elts) and all(isinstance(c, ast.Constant) and c.value == 0 and not isinstance(c.value, bool)
+                                                                  for c in x.elts)
+    if zero_list(e):
+        return True
+    if isinstance(e, ast.BinOp) and isinstance(e.op, ast.Mult):
+        return zero_list(e.left) or zero_list(e.right)
+    return False
+
+
 class HandlerFacts:
     def __init__(self, prog: Program, cls: ClassInfo) -> None:
         self.prog, self.cls = prog, cls
